@@ -514,7 +514,7 @@ namespace cgi {
 
 		bool parse_pairs()
 		{
-			unsigned char const *p=reinterpret_cast<unsigned char const *>(&body_.front());
+			unsigned char const *p=reinterpret_cast<unsigned char const *>(body_.data());
 			unsigned char const *e=p + body_.size();
 			while(p<e) {
 				uint32_t nlen=read_len(p,e);
@@ -544,7 +544,7 @@ namespace cgi {
 
 		bool parse_pairs(std::vector<std::pair<std::string,std::string> > &container)
 		{
-			unsigned char const *p=reinterpret_cast<unsigned char const *>(&body_.front());
+			unsigned char const *p=reinterpret_cast<unsigned char const *>(body_.data());
 			unsigned char const *e=p + body_.size();
 			while(p<e) {
 				uint32_t nlen=read_len(p,e);
